@@ -380,7 +380,9 @@ func runC07(t *testing.T, r *kit.Run) {
 	longTail := remaining >= 3*allowance
 	nontrivial := inFlight
 	r.Out.Evals++
-	r.Out.SimNanos += res.sim.SimNanos
+	if n := len(res.calls); n > 0 && res.calls[n-1].t1 > res.t0 {
+		r.Out.SimNanos += res.calls[n-1].t1 - res.t0 // up to the last API call; the quiescence waits are not counted
+	}
 	r.Out.Yields += res.sim.Yields
 	r.Out.Scheds = append(r.Out.Scheds, res.sim.SchedHash)
 	r.Out.States = append(r.Out.States, res.sim.States...)
